@@ -1134,7 +1134,7 @@ class StdRules:
             if name == 'clear' and not args:
                 em.note_call('map_slot_clear'); return f"map_slot_clear({objp})"
             if name in ('size', 'empty') and not args:
-                raise Unsupported('unordered_map::' + name + ' (the single-slot view cannot answer whole-table queries)')"
+                raise Unsupported('unordered_map::' + name + ' (the single-slot view cannot answer whole-table queries)')
         if cty == 'struct sv':
             if name == 'size': return f"{o}.n"
             if name == 'data': return f"{o}.p"
@@ -1267,6 +1267,7 @@ def parse_specs(paths):
                 if st.startswith('@cbmc '): h['cbmc'] += st.split()[1:]; continue
                 if st.startswith('@noloops'): h['loops'] = False; continue
                 if st.startswith('@timeout '): h['timeout'] = int(st.split()[1]); continue
+                if st.startswith('@mem '): h['mem'] = int(st.split()[1]); continue
                 if st.startswith('@tier '): h['tier'] = st.split()[1]; continue
                 if st.startswith('@bounded '): h['bounded'] = st[len('@bounded '):].strip(); continue
                 if st.startswith('@lemma'): h['lemma'] = True; continue
